@@ -313,7 +313,7 @@ c08_serve!(c08_serve_step, 40, 3, 0);
 //@ what=as c08_serve_step
 c08_serve!(c08_serve_step_w, 18, 2, 0);
 
-//@ props=C08,C12 tier=thorough timeout=3600 mem=32 cap=3 name=c08_serve_step_32
+//@ props=C08,C12 tier=thorough timeout=3600 mem=8 cap=3 name=c08_serve_step_32
 //@ functions=BlockHandler::maybe_serve_cached_response, BlockHandler::packet_clone_limited
 //@ bounds=as c08_serve_step with body 0..80 bytes, block size 32, num 0..3
 //@ what=as c08_serve_step
